@@ -679,7 +679,7 @@ class SwitchRec:
                 timed0.append({'id': w.hid, 'due': int(round((k - self.t0) * 10000))})
         last0 = max(-2000000000, int(round((sw.last_change - self.t0) * 10000)))
         self.head = {'sw': 's_nc' if sw.invert else 's_no', 'st0': int(sw.state), 'hw0': int(sw.hw_state), 'last0': last0,
-                     'reg0': reg0, 'timed0': timed0}
+                     'reg0': reg0, 'timed0': timed0, 'muted0': bool(sw.is_muted)}
 
     def log(self, **kw):
         if self.dead:
@@ -760,9 +760,9 @@ def install_switches():
     def process_switch_obj(self, obj, state, logical, timestamp=None):
         r = rec_of(self, obj)
         foreign = timestamp is not None and abs(timestamp - self.machine.clock.get_time()) > 1e-6
-        if not getattr(self, '_initialized', False) or obj.is_muted or foreign or r.in_report > 0:
+        if not getattr(self, '_initialized', False) or foreign or r.in_report > 0:
             if r.started:
-                r.dead = True       # a change the model cannot follow (muted / not initialised / foreign timestamp / nested)
+                r.dead = True       # a change the model cannot follow (not initialised / foreign timestamp / nested)
             return o_proc(self, obj, state, logical, timestamp)
         if not ready(self, r):
             return o_proc(self, obj, state, logical, timestamp)
@@ -774,6 +774,25 @@ def install_switches():
             r.in_report -= 1
             r.log(op='endreport', st=int(obj.state), hw=int(obj.hw_state))
 
+    from mpf.devices import switch as SWM
+    SWC = SWM.Switch
+    o_mute, o_unmute = SWC.mute, SWC.unmute
+
+    def _mutewrap(orig):
+        def method(self, source, **kwargs):
+            before = bool(self.is_muted)
+            res = orig(self, source, **kwargs)
+            after = bool(self.is_muted)
+            if before != after:
+                sc = self.machine.switch_controller
+                r = rec_of(sc, self)
+                if ready(sc, r):
+                    r.log(op='mute', m=after)
+            return res
+        return method
+
+    SWC.mute = _mutewrap(o_mute)
+    SWC.unmute = _mutewrap(o_unmute)
     SC.add_switch_handler_obj = add_switch_handler_obj
     SC.remove_switch_handler_obj = remove_switch_handler_obj
     SC.process_switch_obj = process_switch_obj
